@@ -132,6 +132,7 @@ class GatedObserver:
         self.extra_watches = extra_watches
         self.extra_events = {}
         self.ino_order = {}      # st_ino -> creation index (maintained by the driver of the history)
+        self.file_watch = False  # watchdog put a watch on a non-directory (see add_watch wrapper)
 
     # ------------------------------------------------------------------ patching
     def start(self):
@@ -165,6 +166,10 @@ class GatedObserver:
                 return -1
             wd = real_add(fd, path, mask)
             me.add_watch_log.append((path, wd))
+            if wd >= 0 and n > 0 and not os.path.isdir(path):
+                # a watch on a non-directory (a directory's name re-used by a file before the reader looked):
+                # outside the scope of the kernel model, which only has directory watches
+                me.file_watch = True
             return wd
 
         class Poll:
